@@ -607,6 +607,10 @@ func runC10(ctx *Ctx) {
 			c10UpdateChain(ctx, k, drv)
 		}
 		k++
+		if ctx.Want(k) {
+			c10Mixed(ctx, k, drv)
+		}
+		k++
 	}
 	if ctx.Want(k) {
 		c10RaceDetector(ctx, k)
